@@ -63,7 +63,7 @@ func reachesValueReturn(b *ssa.BasicBlock) bool {
 		}
 		seen[x] = true
 		if ret, ok := x.Instrs[len(x.Instrs)-1].(*ssa.Return); ok && len(ret.Results) > 0 {
-			if c, ok := ret.Results[0].(*ssa.Const); !ok || !c.IsNil() {
+			if !isNilValue(ret.Results[0], 0) {
 				return true
 			}
 		}
@@ -297,7 +297,7 @@ func ruleP1(p *Prog, r *Report, eng *Engine) {
 			if !ok || len(ret.Results) == 0 {
 				continue
 			}
-			if c, ok := ret.Results[0].(*ssa.Const); ok && c.IsNil() {
+			if isNilValue(ret.Results[0], 0) {
 				continue
 			}
 			inner, ok := ret.Results[0].(*ssa.Call)
@@ -383,7 +383,7 @@ func guardedEqualityReturn(fn *ssa.Function) bool {
 		if !ok || len(ret.Results) != 1 {
 			continue
 		}
-		if c, ok := ret.Results[0].(*ssa.Const); ok && c.IsNil() {
+		if isNilValue(ret.Results[0], 0) {
 			continue
 		}
 		fa, ok := ret.Results[0].(*ssa.FieldAddr)
@@ -420,4 +420,32 @@ func guardedEqualityReturn(fn *ssa.Function) bool {
 		okAny = true
 	}
 	return okAny
+}
+
+// isNilValue: v is the nil constant, or the result of an in-package helper every return of which is
+// such a value (func (t *T) fail(msg string) *node { t.err = …; return nil }).
+func isNilValue(v ssa.Value, d int) bool {
+	if d > 3 {
+		return false
+	}
+	switch t := v.(type) {
+	case *ssa.Const:
+		return t.IsNil()
+	case *ssa.Call:
+		callee := t.Call.StaticCallee()
+		if callee == nil || len(callee.Blocks) == 0 || callee.Signature.Results().Len() != 1 {
+			return false
+		}
+		n := 0
+		for _, b := range callee.Blocks {
+			if ret, ok := b.Instrs[len(b.Instrs)-1].(*ssa.Return); ok {
+				n++
+				if !isNilValue(ret.Results[0], d+1) {
+					return false
+				}
+			}
+		}
+		return n > 0
+	}
+	return false
 }
